@@ -21,6 +21,7 @@ struct S {
     nbackup: u32,
     worker: Option<Worker<String>>,
     last: Option<String>, // id of the last completed backup
+    nother: u32,
 }
 
 impl Drop for S {
@@ -83,6 +84,85 @@ impl State for S {
                     Ok(()) => "ok".into(),
                     Err(_) => "err".into(),
                 }
+            }
+            ["restore_over", how] => {
+                // restore the last backup over the SOURCE's own path: close (checkpoint_on_close) or just drop
+                // the handle, copy the backup back, reopen — the database must be the state at backup time
+                let Some(id) = self.last.clone() else { return "no-backup".into() };
+                let Ok(uuid) = id.parse() else { return "bad-id".into() };
+                let Some(db) = self.db.take() else { return "bad-op".into() };
+                let Ok(db) = Arc::try_unwrap(db) else { return "db-shared".into() };
+                if *how == "close" {
+                    if db.close().is_err() {
+                        return "close-failed".into();
+                    }
+                } else {
+                    drop(db);
+                }
+                let bdir = self.base().join(format!("bk{}", self.nbackup));
+                let target = self.base().join("src.ndb");
+                if BackupManager::restore_from_backup(&bdir, uuid, &target).is_err() {
+                    return "restore-failed".into();
+                }
+                let n = self.next_tx.max(1) + 1;
+                let base = self.base();
+                let r = std::panic::catch_unwind(std::panic::AssertUnwindSafe(|| match Db::open(base.join("src")) {
+                    Ok(db) => {
+                        let snap = db.snapshot();
+                        let v = view(&snap, n);
+                        let nodes = nervusdb_core::GraphSnapshot::nodes(&snap).count() as u32;
+                        drop(snap);
+                        (v, Some((db, nodes)))
+                    }
+                    Err(_) => ("open-failed".into(), None),
+                }));
+                match r {
+                    Ok((v, db)) => {
+                        if let Some((db, nodes)) = db {
+                            // the database is the restored one now: transaction numbering continues from it
+                            self.next_tx = nodes;
+                            self.db = Some(Arc::new(db));
+                        }
+                        v
+                    }
+                    Err(_) => "read-panic".into(),
+                }
+            }
+            ["restore_other", k, comp] => {
+                // restore the last backup over ANOTHER database (k uniform transactions, optionally compacted, closed)
+                let Some(id) = self.last.clone() else { return "no-backup".into() };
+                let Ok(uuid) = id.parse() else { return "bad-id".into() };
+                let Ok(k) = k.parse::<u32>() else { return "bad-op".into() };
+                if self.db.is_none() {
+                    return "bad-op".into();
+                }
+                self.nother += 1;
+                let other = self.base().join(format!("other{}", self.nother));
+                {
+                    let Ok(odb) = Db::open(&other) else { return "other-open-failed".into() };
+                    for i in 0..k {
+                        if do_tx(&odb, i) != "ok" {
+                            return "other-tx-failed".into();
+                        }
+                    }
+                    if *comp == "compact" && odb.compact().is_err() {
+                        return "other-compact-failed".into();
+                    }
+                    if odb.close().is_err() {
+                        return "other-close-failed".into();
+                    }
+                }
+                let bdir = self.base().join(format!("bk{}", self.nbackup));
+                let target = other.with_extension("ndb");
+                if BackupManager::restore_from_backup(&bdir, uuid, &target).is_err() {
+                    return "restore-failed".into();
+                }
+                let n = self.next_tx.max(k).max(1) + 1;
+                let r = std::panic::catch_unwind(std::panic::AssertUnwindSafe(|| match Db::open(&other) {
+                    Ok(db) => view(&db.snapshot(), n),
+                    Err(_) => "open-failed".into(),
+                }));
+                r.unwrap_or_else(|_| "read-panic".into())
             }
             ["close_reopen"] => {
                 // Db::close (checkpoint_on_close: rewrites the WAL when every run is merged), then open again
@@ -176,6 +256,31 @@ fn generate(rng: &mut Rng, n: usize, _tier: &str, out: &mut dyn Write) {
                     runs = 0;
                 }
                 9 if rng.chance(1, 2) => writeln!(out, "close_reopen").unwrap(),
+                9 if txs > 0 => {
+                    // backup, let the source advance, then restore over an existing database
+                    writeln!(out, "backup").unwrap();
+                    let more = rng.below(3);
+                    for _ in 0..more {
+                        if txs < 6 {
+                            writeln!(out, "tx").unwrap();
+                            txs += 1;
+                            runs += 1;
+                        }
+                    }
+                    if runs > 0 && rng.chance(1, 3) {
+                        writeln!(out, "compact").unwrap();
+                        runs = 0;
+                    }
+                    nrest += 1;
+                    if rng.chance(1, 2) {
+                        writeln!(out, "restore_over {}", if rng.chance(1, 2) { "close" } else { "drop" }).unwrap();
+                        writeln!(out, "source r{}_{}", case, nrest).unwrap();
+                        break;
+                    } else {
+                        writeln!(out, "restore_other {} {}", rng.below(5), if rng.chance(1, 3) { "compact" } else { "plain" })
+                            .unwrap();
+                    }
+                }
                 5 | 6 => {
                     writeln!(out, "backup").unwrap();
                     nrest += 1;
